@@ -1,0 +1,7 @@
+//go:build !verif
+
+package verifhook
+
+// Ref gives an instrumentation point a small stable number for a pointer (queue / caller
+// identity in the lock package). No-op in production builds.
+func Ref(p any) int64 { return 0 }
